@@ -30,6 +30,8 @@ def history_oracle(sc, out):
         before = before[-1:]
     # what relying parties know: credential id -> (x, y, rp)
     registered = {p["cred_id"]: (p["key"]["x"], p["key"]["y"], bytes.fromhex(p["rp_id"])) for p in before}
+    # the user handle stored WITH the credential: the one it was registered with (an authentication must not change it)
+    handles = {p["cred_id"]: p["user_handle"] for p in before}
     script = sc["user"]["script"]
     for oi, (op, obs) in enumerate(zip(sc["ops"], out["ops"])):
         if "origin_error" in obs:
@@ -44,6 +46,9 @@ def history_oracle(sc, out):
                     f = parse_auth_data(bytes.fromhex(res["ok"]["auth_data"]))
                     kd = dict(f["acd"]["key"])
                     registered[res["ok"]["raw_id"]] = (kd[-2].hex(), kd[-3].hex(), rp)
+                    for p in after:
+                        if p["cred_id"] == res["ok"]["raw_id"]:
+                            handles[p["cred_id"]] = p["user_handle"]
                 except (Bad, TypeError, KeyError) as e:
                     fails.append(where + "registration response unreadable: %s" % e)
             before = after
@@ -82,6 +87,8 @@ def history_oracle(sc, out):
             stored = [p for p in before if p["cred_id"] == raw]
             if stored and o["user_handle"] != stored[0]["user_handle"]:
                 fails.append(where + "user handle %s returned, %s stored with the credential" % (o["user_handle"], stored[0]["user_handle"]))
+            elif raw in handles and o["user_handle"] != handles[raw]:
+                fails.append(where + "user handle %s returned, the credential was registered with %s (an earlier authentication altered the record)" % (o["user_handle"], handles[raw]))
         else:
             consent = ceremony_consent(obs["log"])
             not_found = res["err"] == {"kind": "CredentialNotFound"}
@@ -199,6 +206,15 @@ def directed(run):
         o5, r5 = ORIGINS[5]
         add("option-cross-rp/" + kind, store_kind=kind, content=content[:1], user={"script": [USER_OK] * 3},
             ops=[auth_op(rng, origin=o5, rp_id=r5, allow=[A1]), auth_op(rng, origin=o5, rp_id=r5, allow=[bytes(16), A1]), auth_op(rng, allow=[A1])])
+    # stored keys whose private scalar is encoded in every way an imported COSE key may carry it: well-formed ones (32 octets,
+    # leading zero kept, 24-31 octets with the leading zeros dropped) must sign under the true public point, the others
+    # (shorter than 24, longer than 32, zero, the group order, empty) are an unusable credential - an error, never a signature
+    for kind in ("ref", "memory"):
+        for shape in SCALAR_SHAPES:
+            cid = bytes([0xC0 + SCALAR_SHAPES.index(shape)]) * 16
+            pk = mk_passkey(rng, "example.com", cred_id=cid, key=key_with_scalar_shape(rng, shape), counter=4, user_handle=b"\x05\x06")
+            add("scalar/%s/%s" % (kind, shape), store_kind=kind, content=[pk], config={"counter": True}, user={"script": [USER_OK] * 2},
+                ops=[auth_op(rng, allow=[cid]), auth_op(rng, allow=[cid], cd=cd_mode(rng, 2), uv="required")])
     # no credential at all / for this RP, with and without consent
     for tag, script in [("consent", USER_OK), ("denied", {"presence": False, "verification": False}), ("uv-missing", {"presence": True, "verification": False}), ("err", {"err": 0x27})]:
         add("empty/" + tag, store_kind="ref", user={"script": [script]}, ops=[auth_op(rng, uv="required")])
@@ -229,7 +245,7 @@ def check(run):
                    "theories/Auth/C03Facts.v", "theories/Auth/StoreFacts.v", "theories/Auth/C05Facts.v", "theories/Auth/History.v"],
         rule="WebAuthn-level histories through passkey_client::Client on contract-following stores: directed (register then authenticate x client-data "
              "mode x challenge length {0,1,31,32,33,1000} x uv requirement; allow lists absent / empty / hit / second entry / unknown / foreign RP; no "
-             "credential with consent, denial, missing verification, user error; store answering NoCredentials) plus random histories of 1-6 "
+             "credential with consent, denial, missing verification, user error; store answering NoCredentials; stored private scalars in every encoding: full, leading zero kept, 1/2/8 octets short, 23 octets, 33 octets, zero, group order, order-1, empty) plus random histories of 1-6 "
              "registrations and authentications over 1-3 RPs with initial content 0-3 credentials, counters on/off/at maximum",
         assumptions=["ECDSA is not modelled arithmetically: the theorems identify the signing key and the signed message; that real signatures verify under "
                      "the public key handed out at registration is checked on every observed assertion by driver/ceremony.py's verifier (own P-256 arithmetic)",
